@@ -227,7 +227,7 @@ theorem req_framing_agree_partial (x : ReqIn) (actual : Nat) (v : ReqVerdict)
     have ho := ho'
     clear ho'
     unfold reqCore at ho
-    rcases x with ⟨ver, method, hasData, dataTruthy, size, chunked, compress, expect100, userCL, userTE, userCE, userConn, userExpect, cfc⟩
+    rcases x with ⟨ver, method, hasData, dataTruthy, size, chunked, compress, expect100, userCL, userTE, userCE, userConn, userExpect, cfc, limited⟩
     simp only at *
     subst hucl hute
     generalize hg : isGetMethod method = g at *
